@@ -139,6 +139,17 @@ def run(ctx):
                     if jl in ("join:/",):
                         continue      # d.m.yyyy/d.m.yyyy: the slash is also a date separator
                     cases.append({"text": text, "D1": D1, "D2": D2, "ts": ts0, "label": "dates", "form": jl})
+    # ranges whose ends are relative days, weekdays, day+month: each end denotes what it denotes alone
+    mixed = [("tomorrow", G.day("rel", 1)), ("today", G.day("rel", 0)), ("31.12.2029", G.day("date", 31, 12, 2029)), ("1.1.2017", G.day("date", 1, 1, 2017)),
+             ("friday", G.day("dow", 4)), ("monday", G.day("dow", 0)), ("5.3.", G.day("doy", 5, 3)), ("24.12.", G.day("doy", 24, 12)), ("eom", G.day("eom")),
+             ("next friday", G.day("nextdow", 4))]
+    for t1, D1 in mixed:
+        for t2, D2 in mixed:
+            if t1 == t2:
+                continue
+            for ts in (ts0, (2019, 12, 30, 8, 0), (2021, 6, 18, 12, 0)):
+                for jl, text in (("join: - ", t1 + " - " + t2), ("join:to", t1 + " to " + t2), ("join:bis", t1 + " bis " + t2)):
+                    cases.append({"text": text, "D1": D1, "D2": D2, "ts": ts, "label": "mixed-day-kinds", "form": jl})
     core.run_stage(ctx, "e2e-date-ranges", cases, e2e.obs_drange, "DenoteTrace")
 
     # ---- before / after ---------------------------------------------------------------------------
